@@ -21,7 +21,7 @@ META = {
         'symbolic boxes: two boxes with a common point must be reported as intersecting.  ApproxSolutionSet and the joint '
         'de-duplication of Path.intersect drop only entries within tol of a kept one.  The bounding boxes used for pruning contain '
         'the curve (degenerate-cubic and quadratic routes, shared with C08).'),
-    'outside': ['that np.roots finds all roots (LAPACK)', 'convergence of the subdivision; the redundant-pair removal loop', 'all Arc pairs',
+    'outside': ['that np.roots finds all roots (LAPACK)', 'convergence of the subdivision; the redundant-pair removal loop', 'Arc pairs: only the closed-form Arc x Line candidates and the Arc x Bezier pairing are encoded (point_to_t, phase2t, Arc x Arc are not)',
                 'crossings on a joint (excluded by the property)'],
     'assumptions': ['complete-roots contract for np.roots'],
 }
@@ -266,6 +266,12 @@ def families(tier):
     fams.append(('path-dedup-2x1x1', 'vf.props.c11', 'fam_path_intersect', {'n1': 2, 'n2': 1, 'hits': 1}))
     fams.append(('bbox-degenerate-cubic', M, 'fam_bbox_contains', {'deg': 3, 'degenerate': True}))
     fams.append(('bbox-quadratic', M, 'fam_bbox_contains', {'deg': 2, 'degenerate': False}))
+    # Arc x Line closed form: every common point of the ellipse and the line is among the candidates handed to point_to_t (shared with C11)
+    for nm, rad in (('2x1', (2.0, 1.0)), ('1x3', (1.0, 3.0)), ('circle', (2.0, 2.0))):
+        for ln in ('slope', 'vertical'):
+            fams.append(('arc-line-closed-form-%s-%s' % (nm, ln), 'vf.props.c11', 'fam_arc_line_candidates', {'radii': rad, 'line': ln}))
+    for n in (2, 3):
+        fams.append(('arc-bezier-pairing-%d' % n, 'vf.props.c11', 'fam_arc_bezier_pairing', {'nroots': n}))
     # a too small box of a genuine cubic drops crossings in the subdivision's pre-filter: the closed-form branch, sharded as in C08
     for k in range(5):
         fams.append(('bbox-cubic-closed-form-%d' % k, 'vf.props.c08', 'fam_minmax', {'deg': 3, 'degenerate': False, 'shard': (k, 5)}))
